@@ -25,7 +25,15 @@ var c10Shapes = []string{`[]`, `[1,2]`, `5`, `-0.5e3`, `"str"`, `true`, `false`,
 	` {"method" : "org.varlink.service.GetInfo" } `, "\t{\"method\":\"org.example.script.M\"}\n", `{"method":"org.example.script.M"}{"method":"org.example.script.N"}`,
 	`{"method":"org.example.script.M"} x`, `{"Method":"org.example.script.M"}`, `{"method":"org.example.script.M","method":"org.example.other.N"}`, `{"METHOD":"org.example.script.M","More":true}`,
 	`{"method":"org.example.script.\ud800"}`, `{"method":"org.example.script.M","parameters":{"id":"x","steps":5}}`, `{"method":"\u0000"}`, `nul`, `{`, `}`, `{"method":"org.example.script.M",}`,
-	"{\"method\":\"org.example.script.\xff\"}", "\xef\xbb\xbf{\"method\":\"org.varlink.service.GetInfo\"}"}
+	"{\"method\":\"org.example.script.\xff\"}", "\xef\xbb\xbf{\"method\":\"org.varlink.service.GetInfo\"}",
+	// valid JSON whose decoding fails half-way, after flags or parameters have been seen (seeded change C01-O: a recycled
+	// request header that keeps what a failed decode had already stored)
+	`{"method":5,"oneway":true}`, `{"method":5,"more":true}`, `{"oneway":true,"more":true,"upgrade":true,"method":{}}`, `{"method":[],"upgrade":true}`,
+	`{"parameters":{"id":"poison","steps":[{"op":"reply"}]},"oneway":true,"method":7}`, `{"method":"org.example.script.M","oneway":true,"more":5}`,
+	`{"method":"org.example.script.M","more":true,"parameters":{"id":"poison2"},"upgrade":"x"}`}
+
+// c10Poison: the frames of c10Shapes that are valid JSON, fail to decode as a call, and carry flags or parameters.
+var c10Poison = c10Shapes[len(c10Shapes)-7:]
 
 // c10Streams builds the byte streams of one run.
 func c10Streams(rng *rand.Rand, jg *JGen, n int, maxLen int) (streams [][]byte, whats []string) {
